@@ -118,17 +118,19 @@ Fixpoint first_index (fs : fsys) (req : bytes) (pages : list bytes) : option (by
               end
   end.
 
-(* the precompressed-sibling loop over staticEncodingPriority *)
-Fixpoint first_sibling (fs : fsys) (req ae : bytes) (encs : list (bytes * bytes)) : option (node * bytes) :=
+(* the precompressed-sibling loop over staticEncodingPriority: a sibling that is on the hide list
+   is passed over *)
+Fixpoint first_sibling (fs : fsys) (hide : list bytes) (req ae : bytes) (encs : list (bytes * bytes))
+  : option (node * bytes) :=
   match encs with
   | [] => None
   | (name, ext) :: r =>
       if accepts ae name then
         match fs_open fs (req ++ ext) with
-        | Some n => Some (n, name)
-        | None => first_sibling fs req ae r
+        | Some n => if is_hidden fs hide n then first_sibling fs hide req ae r else Some (n, name)
+        | None => first_sibling fs hide req ae r
         end
-      else first_sibling fs req ae r
+      else first_sibling fs hide req ae r
   end.
 
 (* staticfiles.FileServer.ServeHTTP / serveFile; [prefix] is the site's path prefix ("/" if none),
@@ -153,7 +155,7 @@ Definition serve_file (fs : fsys) (hide pages : list bytes) (prefix : bytes)
                                          end
                          else (req, d) in
       if n_dir d1 || is_hidden fs hide d1 then Status 404
-      else match first_sibling fs req1 ae gen_static_encodings with
+      else match first_sibling fs hide req1 ae gen_static_encodings with
            | Some (n, enc) => Serve n (Some enc)
            | None => Serve d1 None
            end
@@ -299,12 +301,6 @@ Definition served_from (pages : list bytes) (req ae : bytes) (enc : option bytes
     | None => p = jail base
     | Some e => exists ext, In (e, ext) gen_static_encodings /\ accepts ae e = true /\ p = jail (base ++ ext)
     end.
-
-(* hypothesis of the partial never-hidden theorem: no hidden file is reachable under a name
-   q ++ ext, ext the extension of a static encoding *)
-Definition no_hidden_sibling (fs : fsys) (hide : list bytes) : Prop :=
-  forall q e ext m, In (e, ext) gen_static_encodings -> fs_open fs (q ++ ext) = Some m ->
-                    is_hidden fs hide m = false.
 
 (* the files a plain answer to [req] may consist of: the file the cleaned path names, an index
    page of that directory, or a precompressed sibling of one of these that the client accepts *)
